@@ -65,6 +65,9 @@ func (w *WaterMark) Init(closer *z.Closer) {
 func (w *WaterMark) Begin(index uint64) {
 	w.lastIndex.Store(index)
 	w.markCh <- mark{index: index, done: false}
+	if VerifEnabled {
+		VerifEvent("wm.begin", w.Name, index)
+	}
 }
 
 // BeginMany works like Begin but accepts multiple indices.
@@ -76,6 +79,9 @@ func (w *WaterMark) BeginMany(indices []uint64) {
 // Done sets a single index as done.
 func (w *WaterMark) Done(index uint64) {
 	w.markCh <- mark{index: index, done: true}
+	if VerifEnabled {
+		VerifEvent("wm.done", w.Name, index)
+	}
 }
 
 // DoneMany works like Done but accepts multiple indices.
@@ -103,15 +109,24 @@ func (w *WaterMark) LastIndex() uint64 {
 // WaitForMark waits until the given index is marked as done.
 func (w *WaterMark) WaitForMark(ctx context.Context, index uint64) error {
 	if w.DoneUntil() >= index {
+		if VerifEnabled {
+			VerifEvent("wm.waitFast", w.Name, index)
+		}
 		return nil
 	}
 	waitCh := make(chan struct{})
 	w.markCh <- mark{index: index, waiter: waitCh}
+	if VerifEnabled {
+		VerifEvent("wm.waitEnq", w.Name, index)
+	}
 
 	select {
 	case <-ctx.Done():
 		return ctx.Err()
 	case <-waitCh:
+		if VerifEnabled {
+			VerifEvent("wm.released", w.Name, index)
+		}
 		return nil
 	}
 }
@@ -200,10 +215,16 @@ func (w *WaterMark) process(closer *z.Closer) {
 	}
 
 	for {
+		if VerifEnabled {
+			VerifGate("wm.process", w.Name)
+		}
 		select {
 		case <-closer.HasBeenClosed():
 			return
 		case mark := <-w.markCh:
+			if VerifEnabled {
+				VerifEvent("wm.take", w.Name, mark.index, mark.done, mark.waiter != nil, w.doneUntil.Load())
+			}
 			if mark.waiter != nil {
 				doneUntil := w.doneUntil.Load()
 				if doneUntil >= mark.index {
@@ -224,6 +245,9 @@ func (w *WaterMark) process(closer *z.Closer) {
 				for _, index := range mark.indices {
 					processOne(index, mark.done)
 				}
+			}
+			if VerifEnabled {
+				VerifEvent("wm.processed", w.Name, mark.index, mark.done, mark.waiter != nil, w.doneUntil.Load(), len(waiters))
 			}
 		}
 	}
